@@ -212,9 +212,51 @@ def refused_command_is_final_family(ctx):
         ctx.violation({"kind": "oracle", "entry": "refused MAIL / RCPT / DATA", "what": bad[0][1], "scenario": {k: bad[0][0][k] for k in ("flavor", "ops", "servers")}, "failures": len(bad)})
 
 
+def refused_session_step_family(ctx):
+    """The steps before MAIL count as well: a negative reply to the greeting, to EHLO or to the (first) AUTH command - through the transports,
+    with credentials and two mechanisms on offer - fails the send with that code and class, and the client says nothing more than QUIT: no
+    second AUTH with another mechanism, no MAIL."""
+    from smtp import step, run_scenarios, events_R
+    table = [("greeting", c) for c in (421, 554)] + [("ehlo", c) for c in (421, 451, 502, 550)] + \
+            [("auth", c) for c in (432, 454, 500, 501, 502, 503, 504, 530, 534, 535, 538, 550, 554)]
+    scs = []
+    for pos, code in table:
+        for mechs in (["PLAIN", "LOGIN"], ["LOGIN", "PLAIN"], ["XOAUTH2", "LOGIN", "PLAIN"]):
+            for fl in ("sync", "tokio"):
+                rep = b"%d 5.7.0 refused at %s\r\n" % (code, pos.encode())
+                steps = [step("none", rep if pos == "greeting" else b"220 hi\r\n")]
+                if pos != "greeting":
+                    steps.append(step("line", rep if pos == "ehlo" else b"250-srv\r\n250 AUTH PLAIN LOGIN XOAUTH2\r\n"))
+                if pos == "auth":
+                    steps.append(step("line", rep))
+                steps += [step("line", b"221 bye\r\n"), step("line", b"334 VXNlcm5hbWU6\r\n"), step("line", b"334 UGFzc3dvcmQ6\r\n"), step("line", b"235 ok\r\n"),
+                          step("line", b"250 ok\r\n"), step("line", b"250 ok\r\n"), step("line", b"354 go\r\n"), step("data", b"250 queued\r\n")]
+                scs.append({"id": 810000 + len(scs), "flavor": fl, "timeout_ms": 1500, "servers": [steps], "server_cap_ms": 2500, "code": code, "pos": pos, "mechs": mechs,
+                            "ops": [{"op": "transport", "hello": hx(b"c05.test"), "user": hx(b"step-user"), "pass": hx(b"step-secret"), "mechs": mechs},
+                                    {"op": "tsend", "from": hx(b"a@x.org"), "to": [hx(b"b@y.org")], "msg": hx(b"x")}, {"op": "tdrop"}]})
+            if pos != "auth":
+                break
+    bad = []
+    for sc, r in zip(scs, run_scenarios(scs)):
+        ctx.count(); ctx.cls("refused-%s/%s" % (sc["pos"], sc["flavor"]))
+        srv = (r.get("servers") or [None])[0]
+        Rs = events_R(srv) if srv else []
+        res = str((r.get("results") or ["", ""])[1]) if isinstance(r.get("results"), list) else str(r.get("results", r.get("error")))
+        verbs = [x.split(b" ")[0].strip().upper() for x in Rs]
+        want_verbs = {"greeting": [b"QUIT"], "ehlo": [b"EHLO", b"QUIT"], "auth": [b"EHLO", b"AUTH", b"QUIT"]}[sc["pos"]]
+        want = "err,%s,%d," % ("transient" if sc["code"] < 500 else "permanent", sc["code"])
+        # (a client that leaves without a goodbye after a refused greeting / EHLO is within the property: nothing was transmitted)
+        if not res.startswith(want) or (verbs != want_verbs and verbs != want_verbs[:-1]):
+            bad.append((sc, "%s answered %d (mechanisms %s, %s transport): send returned %s, the server read %s" % (sc["pos"], sc["code"], sc["mechs"], sc["flavor"], res[:70], [v.decode("latin-1") for v in verbs])))
+    ctx.cov["oracle"]["refused_session_step_is_final"] = {"scenarios": len(scs), "failures": len(bad)}
+    if bad:
+        ctx.violation({"kind": "oracle", "entry": "refused greeting / EHLO / AUTH", "what": bad[0][1], "scenario": {k: bad[0][0][k] for k in ("flavor", "ops", "servers")}, "failures": len(bad)})
+
+
 def run(ctx):
     starttls_refusal_family(ctx)
     refused_command_is_final_family(ctx)
+    refused_session_step_family(ctx)
     rng = ctx.rng
     late_acceptance(ctx)
     scs = []
